@@ -129,7 +129,7 @@ def record_programs(setup, writers):
             ok = s.finish_round_robin()
         a = s.actors[name]
         if a.exc is not None:
-            raise RuntimeError("recording grow(%d) failed: %r" % (batch, a.exc))
+            raise common.LibraryFailure("a single grower, alone, fails: grow(%d) raised %r" % (batch, a.exc))
         progs[name] = list(a.trace)
         setup.clear_results()
     return progs, names
@@ -333,7 +333,7 @@ def record_poller_program(setup, names):
         s.finish_round_robin()
     a = s.actors["poller"]
     if a.exc is not None:
-        raise RuntimeError("recording the poller failed: %r" % (a.exc,))
+        raise common.LibraryFailure("progress queries on a quiescent crop fail: %r" % (a.exc,))
     return list(a.trace)
 
 
